@@ -2330,6 +2330,31 @@ static int add_mapping_entry(vnaproperty_yaml_t *vymlp, int t_map,
 #define VNAPROPERTY_MAX_DEPTH	1000
 
 /*
+ * descriptor_levels: number of tree levels a descriptor names (at least 1)
+ *   @format: printf-like format string forming the property expression
+ */
+static int descriptor_levels(const char *format, ...)
+{
+    parser_t parser;
+    va_list ap;
+    int levels = 0;
+    int rc;
+
+    va_start(ap, format);
+    rc = parse(&parser, format, ap);
+    va_end(ap);
+    if (rc == -1) {
+	return 1;
+    }
+    for (const expr_t *exp = parser.prs_head; exp != NULL;
+	    exp = exp->ex_next) {
+	++levels;
+    }
+    parser_free(&parser);
+    return MAX(levels, 1);
+}
+
+/*
  * yaml_ancestor_t: chain of collection nodes being imported, used to
  *	detect YAML aliases that refer to one of their own ancestors
  */
@@ -2346,11 +2371,11 @@ typedef struct yaml_ancestor {
  *   @up:       enclosing collection nodes
  */
 static int yaml_import(vnaproperty_yaml_t *vymlp,
-	vnaproperty_t **rootptr, yaml_node_t *node, const yaml_ancestor_t *up)
+	vnaproperty_t **rootptr, yaml_node_t *node, const yaml_ancestor_t *up,
+	int depth)
 {
     yaml_document_t *document = vymlp->vyml_document;
     yaml_ancestor_t self = { node, up };
-    int depth = 0;
 
     for (const yaml_ancestor_t *yap = up; yap != NULL; yap = yap->ya_up) {
 	if (yap->ya_node == node) {
@@ -2359,12 +2384,13 @@ static int yaml_import(vnaproperty_yaml_t *vymlp,
 		    vymlp->vyml_filename, node->start_mark.line + 1);
 	    goto out;
 	}
-	++depth;
     }
 
     /*
      * The import, and every later walk of the tree, recurses once per
-     * level: refuse input nested deeply enough to exhaust the stack.
+     * level of the property tree: refuse input nested deeply enough to
+     * exhaust the stack.  A map key counts with every level it names
+     * (a key "a.b.c" makes three).
      */
     if (depth >= VNAPROPERTY_MAX_DEPTH) {
 	_vnaproperty_yaml_error(vymlp, VNAERR_SYNTAX,
@@ -2430,7 +2456,9 @@ static int yaml_import(vnaproperty_yaml_t *vymlp,
 			    vymlp->vyml_filename, strerror(errno));
 		    goto out;
 		}
-		if (yaml_import(vymlp, subtree, value, &self) == -1) {
+		if (yaml_import(vymlp, subtree, value, &self, depth +
+			    descriptor_levels("%s",
+				(const char *)key->data.scalar.value)) == -1) {
 		    goto out;
 		}
 	    }
@@ -2461,7 +2489,8 @@ static int yaml_import(vnaproperty_yaml_t *vymlp,
 			    vymlp->vyml_filename, strerror(errno));
 		    goto out;
 		}
-		if (yaml_import(vymlp, subtree, value, &self) == -1) {
+		if (yaml_import(vymlp, subtree, value, &self,
+			    depth + 1) == -1) {
 		    goto out;
 		}
 	    }
@@ -2485,7 +2514,7 @@ out:
 int _vnaproperty_yaml_import(vnaproperty_yaml_t *vymlp,
 	vnaproperty_t **rootptr, void *vp_node)
 {
-    return yaml_import(vymlp, rootptr, (yaml_node_t *)vp_node, NULL);
+    return yaml_import(vymlp, rootptr, (yaml_node_t *)vp_node, NULL, 0);
 }
 
 /*
